@@ -62,6 +62,11 @@ func isKnownFunc(name string) bool {
 var alwaysSplice = map[string]bool{
 	"filippo.io/age/internal/stream.setLastChunkFlag": true,
 	"filippo.io/age/internal/stream.nonceIsZero":      true,
+	"filippo.io/age.wrapWithLabels":                   true,
+	"filippo.io/age.newX25519RecipientFromPoint":      true,
+	"filippo.io/age.multiUnwrap":                      true,
+	"filippo.io/age/agessh.multiUnwrap":               true,
+	"filippo.io/age/cmd/age.parseIdentity":            true,
 }
 
 // transparent: an in-module helper the rules do not know.
